@@ -1,3 +1,4 @@
+import CwPlus.Lemmas.Cw3FlexNodup
 import CwPlus.Lemmas.Cw3Flex
 import CwPlus.Props.C03
 import CwPlus.Props.C15
@@ -56,6 +57,21 @@ theorem status_eq_outcome {ext : Ext} {fuel : Nat} {w : World} (hr : Reachable e
     rw [tally_eq_ballotTally hr hp ho]
   · simp only [ho, if_false, Proposal.currentStatus]
     exact cs_of_ne_open (t := p.tally) ho
+
+/-- **C03 for the list queries** (`ListProposals`, `ReverseProposals`), cw3-flex: in every reachable world, whenever a
+listing answers, every listed entry is a stored proposal under its id and the status listed for it is the `Outcome` of
+its recorded ballots at the query block if it is stored Open, and the stored status otherwise — the same as the point
+query reports (`status_eq_outcome`). -/
+theorem listed_status_eq_outcome {ext : Ext} {fuel : Nat} {w : World} (hr : Reachable ext fuel w) (blk : Block)
+    (cur limit : Option Nat) {vs : List ProposalView}
+    (h : Cw3Flex.listProposals w.flex blk cur limit = .ok vs ∨ Cw3Flex.reverseProposals w.flex blk cur limit = .ok vs) :
+    ∀ v ∈ vs, ∃ p, w.flex.core.proposals.get? v.id = some p ∧
+      (Except.ok v.status : Res Status) =
+        if p.status = .open then Outcome p (ballotsOf w.flex.core v.id) blk else .ok p.status := by
+  intro v hv
+  obtain ⟨p, hp, hst⟩ := listings_status_core (Cw3Flex.reachable_nodup hr) blk cur limit h v hv
+  refine ⟨p, hp, ?_⟩
+  rw [← status_eq_outcome hr hp blk, query_status _ _ _ _ hp, hst]
 
 /-- **Execute is admitted iff Passed** (and the sender is authorised): in a reachable world Execute succeeds exactly
 when the proposal is stored Passed, or stored Open with `Outcome` of its recorded ballots = Passed at the call's
@@ -672,6 +688,18 @@ theorem passed_justified_counterexample :
     ((Cw3Flex.queryProposal CexJ.final.flex ⟨15, 0⟩ 1).toOption.map (·.status)) = some .passed ∧
     (Cw3Flex.execute CexJ.final.flex CexJ.final.group "ms" ⟨15, 0⟩ "x" [] (.execute 1)).isOk = true := by
   decide
+
+/-- non-vacuity of `listed_status_eq_outcome`: the listing of the reachable world `Ex.finalJ` answers (every stored
+proposal fits `u64`, so it has a status at every block: `reachable_statusInv`) -/
+example : ∃ vs, Cw3Flex.listProposals Ex.finalJ.flex ⟨16, 0⟩ none none = .ok vs := by
+  have hr := exJ_reachableSnap.reachableAt.reachable
+  have hfit : ∀ x ∈ Ex.finalJ.flex.core.proposals,
+      x.2.votes.yes + x.2.votes.no + x.2.votes.abstain + x.2.votes.veto ≤ U64_MAX := by decide
+  refine ⟨_, viewAll_eq_map (fun x hx => ?_)⟩
+  have hm : x ∈ Ex.finalJ.flex.core.proposals :=
+    Paginate.mem_sortedEntries.mp ((Paginate.page_sublist _ _ _ _).subset hx)
+  have hp := AMap.get?_of_mem_nodup (Cw3Flex.reachable_nodup hr) hm
+  exact reachable_statusInv hr x.1 x.2 hp (hfit x hm) _
 
 /-- … and the guard of the `…_reachable` corollaries is what excludes this history: a group write in block 10 precedes
 the `Propose` of proposal 1 (start height 10). -/
